@@ -263,7 +263,9 @@ def run_unit(spec_path: str, tier: str, seed: int, kf_omit: set, do_vacuity: boo
     if not meta.get("strict") and overflow_checks_on():
         keep = []
         for f in failures:
-            if f["fid"] and not f["fid"].startswith("lemma:") and f["label"] == "body" and ARITH_MSG.search(f["message"]):
+            # functions marked [no_panic] in specs/ (the property says they never abort) keep their range conditions as obligations
+            if f["fid"] and not f["fid"].startswith("lemma:") and f["label"] == "body" and ARITH_MSG.search(f["message"]) \
+                    and not g.functions.get(f["fid"], {}).get("no_panic"):
                 R.runtime_arith.append({"function": f["fid"], "build_line": f["line"], "message": f["message"]})
             else:
                 keep.append(f)
